@@ -297,7 +297,7 @@ func checkC13(c C13Case) (*Violation, []string, *caseInfo) {
 			artefact = append([]byte(nil), fs.Files[c.Artefact]...)
 			target = append([]byte(nil), fs.Files[c.Target]...)
 		}
-		res := runProc(fs, p, IOCfg{c.Sector, c.FileChunk}, prev)
+		res := runProc(fs, p, IOCfg{c.Sector, c.FileChunk, false}, prev)
 		log = append(log, eventLog(i, res)...)
 		prev = res.Stdout
 		info.Steps += len(res.Steps)
@@ -394,7 +394,7 @@ func genCase13(c *Chooser) C13Case {
 	np := len(cs.Procs)
 	// faults inside the producer: learn its steps from a fault-free dry run
 	if c.Chance(3, 10) {
-		dry := runProc(fsFromFiles(cs.Files, nil), producer, IOCfg{cs.Sector, cs.FileChunk}, nil)
+		dry := runProc(fsFromFiles(cs.Files, nil), producer, IOCfg{cs.Sector, cs.FileChunk, false}, nil)
 		var cand []simos.Fault
 		for _, st := range dry.Steps {
 			for _, kind := range simos.Applicable(st.Kind) {
@@ -525,7 +525,7 @@ func genCase13(c *Chooser) C13Case {
 	if c.Chance(4, 5) {
 		fl := append(civ.flags(), flagSpec{name: "p"})
 		if c.Chance(1, 4) {
-			fl = append(fl, flagSpec{"o", "result", true, false})
+			fl = append(fl, flagSpec{"o", []string{"result", "result", "result", "nodir/result", "v0.json/result"}[c.Int(5)], true, false})
 		}
 		if c.Chance(1, 2) {
 			consumer = ProcSpec{Bin: civ.bin, Argv: renderArgv(c, fl, []string{"p", cs.Target})}
@@ -546,6 +546,12 @@ func genCase13(c *Chooser) C13Case {
 		kind := []string{simos.FStdinEIO, simos.FStdinEOF}[c.Int(2)]
 		// stdin reads start after the artefact was read: steps 1..4 are stdin reads
 		consumer.Faults = []simos.Fault{{Step: 1 + c.Int(3), Kind: kind}}
+	}
+	// or a fault anywhere in the consumer: a seeded step and any fault kind
+	// (one that does not apply to that step simply does not fire)
+	if len(consumer.Faults) == 0 && c.Chance(1, 6) {
+		kinds := []string{simos.FReadEACCES, simos.FReadENOENT, simos.FReadEIO, simos.FOpenWEACCES, simos.FOpenWENOENT, simos.FOpenWENOSPC, simos.FWriteENOSPC, simos.FWriteEIO, simos.FCloseEIO, simos.FKill}
+		consumer.Faults = []simos.Fault{{Step: c.Int(8), Kind: kinds[c.Int(len(kinds))], Param: c.Int(40)}}
 	}
 	cs.Procs = append(cs.Procs, consumer)
 	sort.Strings(cs.Skew)
@@ -599,7 +605,7 @@ func shrink13(raw json.RawMessage) []json.RawMessage {
 		var prev []byte
 		for i, p := range c.Procs[:len(c.Procs)-1] {
 			before := fs.Clone()
-			res := runProc(fs, p, IOCfg{c.Sector, c.FileChunk}, prev)
+			res := runProc(fs, p, IOCfg{c.Sector, c.FileChunk, false}, prev)
 			prev = res.Stdout
 			for _, df := range c.Disk {
 				if df.After == i {
